@@ -22,8 +22,8 @@ func TestMain(m *testing.M) { hx.Main(m) }
 
 // Op is one step of a registration/query history.
 type Op struct {
-	Op     string            `json:"op"`            // Add AddFunc AddRegexp AddFuncRegexp AddCmd AddCmdRegexp | Match Minify MinifyMimetype Bytes String
-	Arg    string            `json:"arg"`           // media type, pattern, or query string
+	Op     string            `json:"op"`               // Add AddFunc AddRegexp AddFuncRegexp AddCmd AddCmdRegexp | Match Minify MinifyMimetype Bytes String
+	Arg    string            `json:"arg"`              // media type, pattern, or query string
 	Params map[string]string `json:"params,omitempty"` // MinifyMimetype only
 	Input  string            `json:"input,omitempty"`
 }
